@@ -4,8 +4,9 @@
    (the way back).  Spec: Spec/SdlRoundtripSpec.v (block_string_value,
    printable, conforms, ast_of_schema, schema_okb).  Proofs:
    Proofs/SdlPrintProofs.v.  Statements only. *)
-From PyGql Require Import Run.Driver Schema.SdlPrint Schema.SdlIntro Spec.SdlRoundtripSpec
-     Proofs.SdlPrintProofs.
+From PyGql Require Import Run.Driver Spec.SdlSpec Schema.SdlPrint Schema.SdlIntro Spec.SdlRoundtripSpec
+     Proofs.SdlPrintProofs Proofs.SdlTextProofs Lang.Parser.
+From Coq Require Import Lia.
 
 (* ---- full-strength statements (kept visible) -------------------------- *)
 
@@ -33,16 +34,18 @@ Definition C12_roundtrip_full (parse : str -> outcome document) : Prop :=
 
 (* ---- proved ----------------------------------------------------------- *)
 
-(* default values of every input kind except input objects: the literal the
-   printer writes for a conforming value coerces back to that value, at every
-   fuel above a bound, whether the builder forces defaults eagerly or not
-   (custom scalars: booleans, floats, strings that are not number literals;
-   ints: C12_custom_int_roundtrip; number-looking strings: the open finding) *)
+(* default values of every input kind, input objects nested to any depth
+   included: the literal the printer writes for a conforming value coerces
+   back to that value, at every fuel above a bound, whether the builder forces
+   defaults eagerly or not.  [conforms] (Spec/SdlRoundtripSpec.v) leaves out:
+   integral-valued and exponent-repr floats, int values of custom scalars
+   (C12_custom_int_roundtrip), and strings of custom scalars that are number
+   literals (the open finding) *)
 Theorem C12_default_roundtrip_partial : forall E t v,
   conforms E t v ->
   exists k, forall fuel, k <= fuel ->
     exists n, node_of_value fuel E v t = Ok n
-              /\ forall eager stack fuel', k <= fuel' -> coerce fuel' eager E stack t n = Ok v.
+              /\ forall eager fuel', k <= fuel' -> coerce fuel' eager E [] t n = Ok v.
 Proof. exact default_roundtrip. Qed.
 Print Assumptions C12_default_roundtrip_partial.
 
@@ -79,6 +82,23 @@ Theorem C12_description_roundtrip_partial : forall o desc depth,
 Proof. exact description_roundtrip_single_line. Qed.
 Print Assumptions C12_description_roundtrip_partial.
 
+(* descriptions laid out as a block -- several lines, or one line of 70
+   characters or more: every line without double quotes and within the width
+   (so the printer does not re-wrap it), empty or starting with a non-blank
+   character, first and last line not empty, the indent made of spaces and
+   tabs.  BlockStringValue of the printed body is the description. *)
+Theorem C12_description_roundtrip_block : forall o desc depth,
+  let lines := split_nl desc in
+  let indent := ind o depth in
+  blank indent = true ->
+  forallb clean_line lines = true ->
+  forallb (fun l => Nat.leb (length l) (120 - length indent)) lines = true ->
+  hd [] lines <> [] -> last lines [] <> [] ->
+  (2 <= length lines \/ 70 <= length (hd [] lines)) ->
+  block_string_value (unescape_triple (description_body o desc depth)) = desc.
+Proof. exact description_roundtrip_block. Qed.
+Print Assumptions C12_description_roundtrip_block.
+
 (* members: type references with their wrappers, and deprecations (with and
    without reason, next to any custom directives), survive the printed document *)
 Theorem C12_members_roundtrip_partial :
@@ -86,6 +106,44 @@ Theorem C12_members_roundtrip_partial :
   /\ (forall dep ds, deprecation_reason (deprecated_dir dep ++ custom_dirs ds) = Ok dep).
 Proof. split; [exact tref_roundtrip|exact deprecation_roundtrip]. Qed.
 Print Assumptions C12_members_roundtrip_partial.
+
+(* every kind: the definition the printer emits for a type (fields, arguments,
+   input fields, enum values, union members, interfaces, wrappers,
+   descriptions, deprecations, custom directives) declares that type again,
+   modulo applied directives named like specified ones, provided the printed
+   literal of every default coerces back at the declared type ([default_rt]:
+   C12_default_roundtrip_partial gives it for conforming values; it fails
+   exactly for the open finding).  With C11_exact_build the builder returns
+   the declared schema, so what C12_members_roundtrip_full still lacks is the
+   document level: that the printed document satisfies sdl_rules_ok /
+   defaults_stable, and the permutation introduced by sorting the types. *)
+Theorem C12_members_roundtrip_kinds : forall Ep E t d,
+  tdef_sdl t = true -> def_of_tdef Ep t = Ok d ->
+  (forall a, In a (tdef_ivalues t) -> default_rt Ep E a) ->
+  map strip_tdef (decl_type E d) = [strip_tdef t].
+Proof. exact kind_roundtrip. Qed.
+Print Assumptions C12_members_roundtrip_kinds.
+
+Theorem C12_directive_roundtrip : forall Ep E dd d,
+  forallb siv_sdl (dd_args dd) = true -> nonempty_desc (dd_desc dd) = true ->
+  def_of_ddef Ep dd = Ok d -> (forall a, In a (dd_args dd) -> default_rt Ep E a) ->
+  decl_directive E d
+  = [DD (dd_name dd) (dd_desc dd) (dd_locs dd) (map (decl_ivalue E) (match d with DDirective _ _ args _ _ => args | _ => [] end))]
+  /\ map strip_siv (match decl_directive E d with [x] => dd_args x | _ => [] end) = map strip_siv (dd_args dd).
+Proof. exact directive_roundtrip. Qed.
+Print Assumptions C12_directive_roundtrip.
+
+(* text level, for the sub-language of type references: the text the schema
+   printer writes for a type reference is parsed back to that reference by the
+   parser model of C01 (Lang/Parser.v); composed through the round trip the
+   C03 builder proved for the AST printer.  For whole schemas the composition
+   C12_roundtrip_full waits for a lexing lemma for the schema printer's
+   layout, see docs/C12.md. *)
+Theorem C12_text_roundtrip_type_references : forall fl t,
+  no_location fl = true -> wf_tref t ->
+  parse_type_str fl (print_tref t) = Ok (ty_of_tref t) /\ tref_of (ty_of_tref t) = t.
+Proof. exact type_reference_text_roundtrip. Qed.
+Print Assumptions C12_text_roundtrip_type_references.
 
 (* the printer is a function of (schema, options): the same arguments give the
    same text at any two positions of any two call histories *)
@@ -101,23 +159,39 @@ Print Assumptions C12_pure.
 Definition ex_env : env :=
   [(s "Color", IEnum [(s "RED", PInt 1); (s "GREEN", PStr (s "g"))]); (s "Date", IScalar)].
 
+Definition ex_env2 : env :=
+  ex_env ++ [(s "In", IInput [IF (s "fooBar") (s "foo_bar") (RNamed (s "Int")) (DPv (PInt 1));
+                               IF (s "color") (s "color") (RList (RNamed (s "Color"))) DNo;
+                               IF (s "self") (s "self") (RNamed (s "In")) DNo])].
+
 Example C12_conforms_instance :
   conforms ex_env (RNonNull (RList (RNamed (s "Color")))) (PList [PInt 1; PNone; PStr (s "g")])
   /\ conforms ex_env (RList (RNonNull (RNamed (s "Date")))) (PList [PStr (s "2020-01-01"); PBool true; PFloat (s "2.5")])
   /\ conforms ex_env (RNamed (s "Float")) (PFloat (s "1.5"))
-  /\ conforms ex_env (RNonNull (RNamed (s "Int"))) (PInt (-2147483647)).
+  /\ conforms ex_env (RNonNull (RNamed (s "Int"))) (PInt (-2147483647))
+  /\ conforms ex_env2 (RNamed (s "In"))
+        (PDict [(s "foo_bar", PInt 7); (s "self", PDict [(s "foo_bar", PInt 1); (s "color", PList [PInt 1])])]).
 Proof.
   repeat split.
-  - apply cf_nonnull; [reflexivity|discriminate|].
+  - exists 0. apply cf_nonnull; [reflexivity|discriminate|].
     apply cf_list_cons; [eapply cf_enum; try reflexivity; discriminate|].
     apply cf_list_cons; [apply cf_null; reflexivity|].
     apply cf_list_cons; [eapply cf_enum; try reflexivity; discriminate|apply cf_list_nil].
-  - apply cf_list_cons; [apply cf_nonnull; [reflexivity|discriminate|apply cf_custom_str; reflexivity]|].
+  - exists 0. apply cf_list_cons; [apply cf_nonnull; [reflexivity|discriminate|apply cf_custom_str; reflexivity]|].
     apply cf_list_cons; [apply cf_nonnull; [reflexivity|discriminate|apply cf_custom_bool; reflexivity]|].
     apply cf_list_cons; [apply cf_nonnull; [reflexivity|discriminate|apply cf_custom_float; reflexivity]|].
     apply cf_list_nil.
-  - apply cf_float; reflexivity.
-  - apply cf_nonnull; [reflexivity|discriminate|apply cf_int; reflexivity].
+  - exists 0. apply cf_float; reflexivity.
+  - exists 0. apply cf_nonnull; [reflexivity|discriminate|apply cf_int; reflexivity].
+  - exists 2. eapply cf_input; try reflexivity.
+    + repeat constructor; simpl; intuition discriminate.
+    + intros fd [<-|[<-|[<-|[]]]]; split; cbn; intros; try discriminate; try (split; reflexivity).
+      * inversion H; subst. apply cf_int; reflexivity.
+      * inversion H; subst. eapply cf_input; try reflexivity.
+        -- repeat constructor; simpl; intuition discriminate.
+        -- intros fd [<-|[<-|[<-|[]]]]; split; cbn; intros; try discriminate; try (split; reflexivity).
+           ++ inversion H0; subst. apply cf_int; reflexivity.
+           ++ inversion H0; subst. apply cf_list_cons; [eapply cf_enum; try reflexivity; discriminate|apply cf_list_nil].
 Qed.
 
 (* multi-line descriptions, indentation, quotes and triple quotes: instances of
@@ -131,6 +205,13 @@ Example C12_description_instances :
      ([32; 32; 108; 101; 97; 100; 105; 110; 103]%N, 2);
      ([97; 10; 10; 98]%N, 1)] = true.
 Proof. vm_compute; reflexivity. Qed.
+
+Example C12_description_block_instance :
+  let o := POpts (s "    ") true false CustomOff in
+  let desc := [102; 105; 114; 115; 116; 10; 10; 115; 101; 99; 111; 110; 100; 32; 108; 105; 110; 101]%N in
+  blank (ind o 1) = true /\ forallb clean_line (split_nl desc) = true
+  /\ hd [] (split_nl desc) <> [] /\ last (split_nl desc) [] <> [] /\ 2 <= length (split_nl desc).
+Proof. repeat split; try (vm_compute; reflexivity); try (vm_compute; discriminate). vm_compute; lia. Qed.
 
 Example C12_members_instance :
   let sc := Sch [TObject (s "Query") (Some (s "root")) []
